@@ -176,5 +176,14 @@ impl<T> BufReader<T> {
                 && final(buf)@ == old(self)@.bytes.subrange(old(self)@.pos, old(self)@.pos + old(buf)@.len()),
             (r.is_err() && r->Err_0.k == io::ErrorKind::UnexpectedEof) ==> old(self)@.pos + old(buf)@.len() > old(self)@.bytes.len(),
     { unimplemented!() }
+    // BufRead::fill_buf: a look at the unread bytes without consuming them (empty exactly at end of file).  Present so that a changed reader
+    // that peeks still reaches the verifier; the returned slice is modelled as an owned copy (no borrow of the reader is kept)
+    #[verifier::external_body]
+    pub fn fill_buf(&mut self) -> (r: core::result::Result<Vec<u8>, io::Error>)
+        ensures
+            final(self)@ == old(self)@,
+            r.is_ok() ==> (r.unwrap()@.len() == 0) == (old(self)@.pos >= old(self)@.bytes.len()),
+            r.is_ok() ==> r.unwrap()@.len() <= old(self)@.bytes.len() - old(self)@.pos || r.unwrap()@.len() == 0,
+    { unimplemented!() }
 }
 } // verus! (wal_env)
